@@ -29,7 +29,12 @@ def run(ctx):
         behs = gen(ctx, 3) + gen(ctx, 9, simulate=40)
         behs = behs[:600]
     else:
-        behs = gen(ctx, 4) + gen(ctx, 12, simulate=600)
+        # all histories of length 3, a seeded sample of the (tens of thousands of) histories of length 4, simulated long ones
+        import random
+        b4 = gen(ctx, 4)
+        ctx.cov["histories_len4_enumerated"] = len(b4)
+        random.Random(ctx.seed * 13 + 1).shuffle(b4)
+        behs = gen(ctx, 3) + b4[:6000] + gen(ctx, 12, simulate=600)
     bpath = os.path.join(ctx.tmp, "lt_behaviours.json")
     json.dump(behs, open(bpath, "w"))
     tpath = os.path.join(ctx.tmp, "lt_trace.ndjson")
